@@ -77,17 +77,21 @@ fn str_case<const N: usize, const TEXT: usize>(declared: u64) {
         j += 1;
     }
     let mut u = Unstructured::new(&buf[..8 + TEXT]);
-    match arbitrary_str::<N>(&mut u) {
+    let r = arbitrary_str::<N>(&mut u);
+    // reachability of the interesting outcomes where this instance admits them (a cover that is dead for an instance is
+    // reported unsatisfiable, hence the disjunctions)
+    let (ok, len, first) = match &r {
+        Ok(s) => (true, s.len(), if s.len() > 0 { s.as_bytes()[0] } else { 0 }),
+        Err(_) => (false, 0, 0),
+    };
+    let full_possible = declared >= N as u64 && TEXT >= N;
+    let text_possible = TEXT >= 2 && (2 <= declared && declared as usize <= TEXT || declared >= 1000);
+    kani::cover!(!full_possible || (ok && len == N));
+    kani::cover!(!text_possible || (ok && len > 0 && first >= 0x80));
+    match r {
         Ok(s) => {
             assert!(s.len() <= N, "C19: text field beyond its capacity");
             assert!(spec_utf8_valid(s.as_bytes()), "C19: text field is not well-formed UTF-8");
-            // reachability of the interesting outcomes, where the instance admits them
-            if declared >= N as u64 && TEXT >= N {
-                kani::cover!(s.len() == N);
-            }
-            if TEXT >= 2 && (2 <= declared && declared as usize <= TEXT || declared >= 1000) {
-                kani::cover!(s.len() > 0 && s.as_bytes()[0] >= 0x80);
-            }
         }
         Err(e) => assert!(matches!(e, Error::NotEnoughData), "C19: unexpected generator error"),
     }
